@@ -316,6 +316,14 @@ func checkDT64(p int, sec int64, nsec int64, z *time.Location) (key string, f c2
 	}
 	// Column views.
 	col := new(proto.ColDateTime64).WithPrecision(prec).WithLocation(z)
+	if sec%2 == 0 {
+		// the way a result or input column learns its precision: set to something else first,
+		// then told the server's type
+		col = new(proto.ColDateTime64).WithPrecision(proto.Precision((p + 3) % 10)).WithLocation(z)
+		if err := col.Infer(proto.ColumnType(fmt.Sprintf("DateTime64(%d)", p))); err != nil {
+			return "coldatetime64-infer", c20fail{"ColDateTime64.Infer", in, err.Error(), "nil"}, false
+		}
+	}
 	col.Append(tt)
 	if col.Data[0] != got {
 		return "coldatetime64-append", c20fail{"ColDateTime64.Append", in, fmt.Sprint(col.Data[0]), fmt.Sprint(got)}, false
